@@ -57,6 +57,24 @@ pub enum Validity {
   Current,
   Past,
   Future,
+  /// The same three situations with the bounds two hours away from the wall clock and written
+  /// with an explicit UTC offset of that many hours (0: `Z`): the offset has to be applied.
+  CurrentOff(i8),
+  PastOff(i8),
+  FutureOff(i8),
+}
+
+impl Validity {
+  pub fn is_current(self) -> bool {
+    matches!(self, Validity::Current | Validity::CurrentOff(_))
+  }
+}
+
+/// the instant `now + hours`, written as local time of the zone `off` hours east of UTC
+fn at_offset(hours: i64, off: i8) -> String {
+  use chrono::{Duration, FixedOffset, SecondsFormat, Utc};
+  let zone = FixedOffset::east_opt(i32::from(off) * 3600).unwrap();
+  (Utc::now() + Duration::hours(hours)).with_timezone(&zone).to_rfc3339_opts(SecondsFormat::Secs, off == 0)
 }
 
 #[derive(Clone, Debug, PartialEq, Eq, serde::Serialize, serde::Deserialize)]
@@ -103,10 +121,14 @@ fn crit_xml(tag: &str, c: &Crit) -> String {
 pub fn permissions_xml(grants: &[Grant]) -> String {
   let mut g = String::new();
   for (i, gr) in grants.iter().enumerate() {
-    let (nb, na) = match gr.validity {
-      Validity::Current => ("2001-01-01T00:00:00", "2999-01-01T00:00:00"),
-      Validity::Past => ("2001-01-01T00:00:00", "2002-01-01T00:00:00"),
-      Validity::Future => ("2998-01-01T00:00:00", "2999-01-01T00:00:00"),
+    let (nb, na): (String, String) = match gr.validity {
+      Validity::Current => ("2001-01-01T00:00:00".into(), "2999-01-01T00:00:00".into()),
+      Validity::Past => ("2001-01-01T00:00:00".into(), "2002-01-01T00:00:00".into()),
+      Validity::Future => ("2998-01-01T00:00:00".into(), "2999-01-01T00:00:00".into()),
+      // began two hours ago in a zone `off` hours ahead, ends in two hours in a zone `off` hours behind
+      Validity::CurrentOff(off) => (at_offset(-2, off), at_offset(2, -off)),
+      Validity::PastOff(off) => ("2001-01-01T00:00:00".into(), at_offset(-2, off)),
+      Validity::FutureOff(off) => (at_offset(2, off), "2999-01-01T00:00:00".into()),
     };
     let mut rules = String::new();
     for r in &gr.rules {
@@ -219,7 +241,7 @@ fn crit_applies(c: &Crit, topic: &str, partitions: &[&str]) -> bool {
 
 /// first applicable rule of the first grant of the subject that is valid now; None: no such grant
 pub fn model_action(grants: &[Grant], act: Act, domain: u16, topic: &str, partitions: &[&str]) -> Option<bool> {
-  let g = grants.iter().find(|g| g.me && g.validity == Validity::Current)?;
+  let g = grants.iter().find(|g| g.me && g.validity.is_current())?;
   for r in &g.rules {
     if !r.domains.iter().any(|d| dom_matches(d, domain)) {
       continue;
